@@ -3595,14 +3595,14 @@ class Builder(object):
         connective = tokens[index]
         index += 1
         if connective not in ('is', ):
-            msg = "ParseError: Need status invalid connective '%s'" %\
+            msg = "ParseError: Need %s invalid connective '%s'" %\
                 (kind, connective)
             raise excepting.ParseError(msg, tokens, index)
 
         status = tokens[index]  # participle
         index += 1
         if status.capitalize() not in StatusValues:
-            msg = "ParseError: Need status invalid status '%s'" %\
+            msg = "ParseError: Need %s invalid status '%s'" %\
                 (kind, status)
             raise excepting.ParseError(msg, tokens, index)
         status = StatusValues[status.capitalize()] #replace name with value
@@ -3989,7 +3989,7 @@ class Builder(object):
         if index == (len(tokens) - 1): #only one more token so it must be value
             value = tokens[index]
             if value in Reserved:  # ending token not valid value
-                msg = "ParseError: Encountered reserved '{0}' instead of value." % (value)
+                msg = "ParseError: Encountered reserved '{0}' instead of value.".format(value)
                 raise excepting.ParseError(msg, tokens, index)
             index +=1 #eat token
             field = 'value' #default field
@@ -3997,7 +3997,7 @@ class Builder(object):
         else: #more than one so first may be field and second token may be value
             field = tokens[index]
             if field in Reserved:  # ending token not valid field
-                msg = "ParseError: Encountered reserved '{0}' instead of field." % (field)
+                msg = "ParseError: Encountered reserved '{0}' instead of field.".format(field)
                 raise excepting.ParseError(msg, tokens, index)
             index += 1
             value = tokens[index]
@@ -4021,7 +4021,7 @@ class Builder(object):
 
             value = tokens[index]
             if value in Reserved:  # ending token before valid value
-                msg = "ParseError: Encountered reserved '{0}' instead of value." % (value)
+                msg = "ParseError: Encountered reserved '{0}' instead of value.".format(value)
                 raise excepting.ParseError(msg, tokens, index)
             index += 1
             data[field] = Convert2StrBoolPathCoordPointNum(value) #convert to BoolNumStr, load data
